@@ -91,8 +91,12 @@ func TestConfigSpace(t *testing.T) {
 
 		vs := w.validate()
 		kinds := kindsOf(vs)
-		// harness self-check: every injected violation must be seen by the validator
+		// harness self-check: an injected violation must be seen by the validator (two injected
+		// ones may cancel each other, e.g. key length +1 then -1, so only single injections are checked)
 		for _, a := range applied {
+			if len(applied) != 1 {
+				break
+			}
 			k := a[:strings.IndexByte(a, '/')]
 			found := false
 			for _, kk := range kinds {
@@ -342,6 +346,9 @@ func runAndJudge(rt fataler, rec *ev.Recorder, p *Plan, knownReject *bool) (exer
 			os.Remove(o.Journal)
 			return false, []string{"known:" + o.Sig}
 		}
+		// unindented copy for the driver: a line starting with "panic:" marks the failure as a
+		// crash, and the journal of the plan becomes the replay file
+		fmt.Printf("\n%s\nSIG=%s journal=%s\n", crashExcerpt(o.Output), o.Sig, o.Journal)
 		rt.Fatalf("SIG=%s the process died while traffic flowed through an accepted configuration (plan %s, journal %s)\n%s\nconfig:\n%s",
 			o.Sig, p.Name, o.Journal, crashExcerpt(o.Output), p.Config)
 	}
